@@ -95,9 +95,10 @@ fn sources() -> Vec<String> {
         "(a, b, s, (a + b, s + s), typeof(s), nosuch(a))".to_string(),
         format!("{}a{} + slow(b) * c", "-(".repeat(48), ")".repeat(48)),
         // many distinct builtins in one evaluation, in two different orders (whatever is cached per context or per
-        // tree about resolved builtins is replaced all the time)
-        "math::sin(a) + math::cos(a) + math::tan(b) + math::exp(b) + math::ln(b) + math::log2(b) + math::sqrt(b) + floor(b) + ceil(b) + round(b) + math::abs(a) + min(a, b) + max(a, b) + len(s) + bitand(a, 5) + shl(1, 3)".to_string(),
-        "shr(a, 1) + bitor(a, 2) + len(s) + max(a, b) + min(a, b) + math::abs(a) + round(b) + ceil(b) + floor(b) + math::cbrt(b) + math::log10(b) + math::atan(b) + math::sinh(b) + math::cosh(a) + math::exp2(b) + math::hypot(a, b)".to_string(),
+        // tree about resolved builtins is replaced all the time). Only exactly-specified builtins: Miri deliberately
+        // perturbs the last bits of sin/cos/exp/ln/pow…, so those would differ between two evaluations under Miri.
+        "floor(b) + ceil(b) + round(b) + math::abs(a) + min(a, b) + max(a, b) + len(s) + bitand(a, 5) + bitor(a, 2) + bitxor(a, 9) + bitnot(a) + shl(1, 3) + shr(a, 1) + math::sqrt(b) + if(math::is_nan(b), 1, 2) + len(str::to_uppercase(s))".to_string(),
+        "len(str::trim(s)) + shr(a, 1) + bitor(a, 2) + len(s) + max(a, b) + min(a, b) + math::abs(a) + round(b) + ceil(b) + floor(b) + len(str::to_lowercase(s)) + if(contains((a, b), a), 1, 2) + if(math::is_finite(b), 3, 4) + len(typeof(s)) + len(str::substring(s, 1)) + bitnot(a)".to_string(),
     ]
 }
 
